@@ -1,4 +1,5 @@
 import Litep2pVerif.Proofs.Kad.Table
+import Litep2pVerif.Proofs.Kad.TableWiring
 import Litep2pVerif.Generated.Consts
 /-!
 # C14 — Kademlia routing table places and returns peers by XOR distance
@@ -233,6 +234,85 @@ theorem closest_dup_witness :
     (demo.closest NB 0x51 60).map Slot.key = [0x51, 0x52, 0x150] := by
   decide +kernel
 
+/-! ## Coordinator level: the event handlers of `Kademlia` on top of the table (`Model/Kad/TableWiring.lean`)
+
+`wrun K NB lk evs` is the coordinator (routing table + the key set of `Kademlia::peers`) after the event history `evs`
+(`AddKnownPeer` commands / peers of responses, `ConnectionEstablished`, `ConnectionClosed`, `DialFailure`, inbound
+substreams). -/
+section Coordinator
+open Litep2pVerif.Kad.Wiring
+
+/-- **The coordinator's table is a table history**: its routing table after `evs` is the table model run on the
+operations the handlers performed, so every theorem above (placement, bound, `connected_not_evicted`, `closest`)
+holds for coordinator histories. -/
+theorem coordinator_table_is_table_run (lk : Nat) (evs : List Ev) :
+    (wrun K NB lk evs).table = run K NB lk (opsOf K { table := Table.new NB lk } evs) :=
+  wrun_table K NB lk evs
+
+example : opsOf K { table := Table.new NB 0 } [.addKnown 1 0x101 1, .inbound 1, .addKnown 1 0x101 1, .closed 1 0x101] =
+    [.add 1 0x101 1 .notConnected 0, .add 1 0x101 1 .connected 0, .disconnected 0x101 0] := by decide +kernel
+
+/-- **A connected peer stays `Connected` in the table and keeps its slot.** If after a history the node in slot `si`
+of bucket `bi` is a peer marked `Connected`, then after ANY further events — dial failures (also stale ones for that
+very peer), connections and disconnections of other peers, adds of other peers filling its bucket past capacity,
+inbound substreams — except the close of its own connection and an `add_known_peer` with addresses for it, the same
+slot holds the same peer, still `Connected`. (Full statement "a peer whose connection is open is `Connected`": false
+for `add_known_peer` on a peer without `PeerContext`, see `add_known_peer_downgrades_witness`; the exact condition is
+in `connected_peer_kept_by_event`.) -/
+theorem connected_peer_stays_connected_in_table (lk : Nat) (evs more : List Ev) (bi si : Nat) (p : Peer)
+    (h : ((wrun K NB lk evs).table.buckets.getD bi [])[si]? = some (.real p)) (hc : p.conn = .connected)
+    (hm : ∀ e ∈ more, e.harmless p.key) :
+    ∃ p', ((wrun K NB lk (evs ++ more)).table.buckets.getD bi [])[si]? = some (.real p') ∧ p'.peer = p.peer ∧
+      p'.key = p.key ∧ p'.conn = .connected :=
+  wrun_keeps_connected K NB lk more evs h hc hm
+
+/-- Non-vacuity (the seeded history): peer 1 is in the table, connects inbound with nothing pending, a stale
+`DialFailure` for it arrives, its bucket fills up with 19 more connected peers, a 21st peer of the bucket is added:
+peer 1 is still `Connected` in slot 0 and the newcomer found no slot. -/
+example :
+    let pre : List Ev := [.addKnown 1 0x101 1, .established 1 0x101 false false]
+    let more : List Ev := [.dialFailure 1 0x101 1] ++
+      ((List.range 19).flatMap fun n => [Ev.addKnown (n + 2) (0x102 + n) 1, .established (n + 2) (0x102 + n) true false]) ++
+      [.addKnown 21 0x1f0 1]
+    ((wrun K NB 0 pre).table.buckets.getD 8 [])[0]? = some (.real ⟨1, 0x101, 1, .connected⟩) ∧
+    (∀ e ∈ more, e.harmless 0x101) ∧
+    ((wrun K NB 0 (pre ++ more)).table.buckets.getD 8 [])[0]? = some (.real ⟨1, 0x101, 2, .connected⟩) ∧
+    ((wrun K NB 0 (pre ++ more)).table.buckets.getD 8 []).length = K ∧
+    (wrun K NB 0 (pre ++ more)).peers = [] := by
+  decide +kernel
+
+/-- **One event, exact condition**: a `Connected` entry loses neither slot nor flag unless the event closes that
+peer's connection, or is an `add_known_peer` with addresses for it while the peer has no `PeerContext`
+(`peers` is not the set of open connections). -/
+theorem connected_peer_kept_by_event (lk : Nat) (evs : List Ev) (e : Ev) (bi si : Nat) (p : Peer)
+    (h : ((wrun K NB lk evs).table.buckets.getD bi [])[si]? = some (.real p)) (hc : p.conn = .connected)
+    (hclose : ∀ q, e ≠ .closed q p.key)
+    (hadd : ∀ q n, e = .addKnown q p.key n → q ∈ (wrun K NB lk evs).peers ∨ n = 0) :
+    ∃ p', ((wrun K NB lk (evs ++ [e])).table.buckets.getD bi [])[si]? = some (.real p') ∧ p'.peer = p.peer ∧
+      p'.key = p.key ∧ p'.conn = .connected := by
+  rw [wrun_append]
+  exact wstep_keeps_connected K _ e h hc hclose hadd
+
+/-- Non-vacuity: after an inbound substream (the peer has a `PeerContext`) `add_known_peer` keeps it `Connected`. -/
+example :
+    let pre : List Ev := [.addKnown 1 0x101 1, .established 1 0x101 false false, .inbound 1]
+    (wrun K NB 0 pre).peers = [1] ∧
+    ((wrun K NB 0 (pre ++ [.addKnown 1 0x101 2])).table.buckets.getD 8 [])[0]? = some (.real ⟨1, 0x101, 3, .connected⟩) := by
+  decide +kernel
+
+/-- **Witness of the finding** (`known_findings`: add-known-peer-downgrades-open-connection): a peer that connected
+while nothing was pending for it (so it has no `PeerContext`) is marked `NotConnected` by an `add_known_peer` for it
+although its connection is open, and the next peer of its full bucket takes its slot. -/
+theorem add_known_peer_downgrades_witness :
+    let pre : List Ev := [.addKnown 1 0x101 1, .established 1 0x101 false false, .addKnown 1 0x101 1] ++
+      ((List.range 19).flatMap fun n => [Ev.addKnown (n + 2) (0x102 + n) 1, .established (n + 2) (0x102 + n) true false])
+    ((wrun K NB 0 pre).table.buckets.getD 8 [])[0]? = some (.real ⟨1, 0x101, 2, .notConnected⟩) ∧
+    ((wrun K NB 0 (pre ++ [.addKnown 21 0x1f0 1])).table.buckets.getD 8 [])[0]? =
+      some (.real ⟨21, 0x1f0, 1, .notConnected⟩) := by
+  decide +kernel
+
+end Coordinator
+
 #print axioms bucket_placement
 #print axioms local_never_stored
 #print axioms bucket_bound
@@ -245,5 +325,9 @@ theorem closest_dup_witness :
 #print axioms bucket_order
 #print axioms closest_correct
 #print axioms closest_dup_witness
+#print axioms coordinator_table_is_table_run
+#print axioms connected_peer_stays_connected_in_table
+#print axioms connected_peer_kept_by_event
+#print axioms add_known_peer_downgrades_witness
 
 end Litep2pVerif.Props.C14
